@@ -11,7 +11,7 @@ from ..util import Rig
 
 PROPERTY = "C13"
 LEVEL = "fault_enumeration"
-RULE = ("fault enumeration: for each valid response kind (state, capabilities, properties, energy, humidity) every byte position "
+RULE = ("fault enumeration: for each valid response kind (state, capabilities, properties, energy, humidity; state/energy/humidity also with the frame types of unsolicited reports 04/05/06) every byte position "
         ">= 1 x every substitute value (all 255) without checksum fix-up, and every body byte except the trailing "
         "check byte with the outer checksum recomputed. The mutated frame is the only answer to a refresh (get_capabilities for the "
         "capability frame) of a client holding a known non-default state. An independent oracle decides per frame whether it MUST "
@@ -54,6 +54,13 @@ def valid_frame(kind: str) -> bytes:
     dev.energy = bytes.fromhex("00012345") + bytes(4) + bytes.fromhex("00000777") + bytes.fromhex("000123") + bytes(1)
     if kind == "state":
         return dev.report(0x03, 9)
+    if kind.startswith("state-t"):
+        # the same valid state body sent as an unsolicited report / notification (frame type 04, 05, 06, 0A)
+        return dev.report(int(kind[-2:], 16), 9)
+    if kind.startswith("energy-t"):
+        return rc.frame_build(bytes([0xC1, 0x21, 0x01, 0x44]) + dev.energy + bytes([9]), int(kind[-2:], 16))
+    if kind.startswith("humidity-t"):
+        return rc.frame_build(bytes([0xC1, 0x21, 0x01, 0x45, dev.humidity_now]) + bytes(15) + bytes([9]), int(kind[-2:], 16))
     if kind == "state-sum":
         dev.check = "sum"
         return dev.report(0x02, 9)
@@ -180,7 +187,8 @@ def shards(tier):
     out += [("lenbyte", lo, lo + 8) for lo in range(0, len(varied_frames()), 8)]
     out += [("same", 0, 0)]
     out += [("batch", i, 0) for i in range(len(KINDS))]
-    for k in KINDS + ["state-crc0", "state-sum0"] + (["state-sum", "props-ack", "energy-crc0"] if tier == "thorough" else []):
+    for k in KINDS + ["state-crc0", "state-sum0", "state-t05", "state-t04", "energy-t06", "humidity-t05"] + (
+            ["state-sum", "props-ack", "energy-crc0", "state-t06", "state-t0a", "state-t02", "energy-t04", "energy-t05", "humidity-t04"] if tier == "thorough" else []):
         n = len(valid_frame(k))
         step = 3 if tier == "thorough" else 6
         for lo in range(1, n, step):
